@@ -23,7 +23,8 @@ tvars == <<cell>>
 
 -----------------------------------------------------------------------------
 (* C19 *)
-MisuseKinds == {"param_ARGS", "param_KWARGS", "kw_ARGS", "kw_KWARGS", "param_result", "param_OLD",
+MisuseKinds == {"param_ARGS", "param_KWARGS", "kw_ARGS", "kw_KWARGS", "kw_ARGS_reentrant", "kw_KWARGS_reentrant",
+                "param_result", "param_OLD",
                 "inv_extra_param", "inv_coroutine", "snapshot_no_post", "capture_noname_0", "capture_noname_2",
                 "snapshot_dup", "error_int", "error_str", "error_nonexc_class", "error_callable_object"}
 Decorators == {"require", "ensure", "invariant", "snapshot"}
@@ -32,6 +33,8 @@ Callables == {"function", "method", "static", "classm", "getter", "async_functio
 \* on which decorator / callable a misuse can occur at all
 MisuseApplies(m, d, c) ==
   CASE m \in {"param_ARGS", "param_KWARGS", "kw_ARGS", "kw_KWARGS"} -> d \in {"require", "ensure"} /\ c \notin {"class", "getter"}
+    \* the reserved keyword is passed by a call the function's own condition makes (a re-entrant, unchecked call)
+    [] m \in {"kw_ARGS_reentrant", "kw_KWARGS_reentrant"} -> d \in {"require", "ensure"} /\ c \in {"function", "method", "static"}
     [] m \in {"param_result", "param_OLD"} -> d \in {"require", "ensure"} /\ c \notin {"class", "getter"}
     [] m \in {"inv_extra_param", "inv_coroutine"} -> d = "invariant" /\ c = "class"
     [] m \in {"snapshot_no_post", "capture_noname_0", "capture_noname_2", "snapshot_dup"} -> d = "snapshot" /\ c # "class"
@@ -41,7 +44,7 @@ MisuseApplies(m, d, c) ==
 \* when and how it must be rejected ("never" = it is no misuse in this cell)
 MisuseExpected(m, d, c) ==
   CASE m \in {"param_ARGS", "param_KWARGS"} -> [moment |-> "decorate", exc |-> "TypeError"]
-    [] m \in {"kw_ARGS", "kw_KWARGS"} -> [moment |-> "call", exc |-> "TypeError"]
+    [] m \in {"kw_ARGS", "kw_KWARGS", "kw_ARGS_reentrant", "kw_KWARGS_reentrant"} -> [moment |-> "call", exc |-> "TypeError"]
     [] m \in {"param_result", "param_OLD"} ->
          \* only a function with postconditions reserves these names
          IF d = "ensure" THEN [moment |-> "call", exc |-> "TypeError"] ELSE [moment |-> "never", exc |-> ""]
